@@ -25,6 +25,12 @@ type Violation struct {
 	What      string          `json:"what"`
 	Case      json.RawMessage `json:"case"`
 	Count     int64           `json:"count"` // further cases with the same signature
+	// where it was found: lets the parent re-run the whole shard when the single case does not
+	// reproduce in isolation (violations that depend on process-wide state left by earlier cases)
+	Shard   int    `json:"shard"`
+	NShards int    `json:"nshards"`
+	Tier    string `json:"tier,omitempty"`
+	Mode    string `json:"replay_mode,omitempty"` // "" = single case; "shard" = re-run the shard
 }
 
 // Ctx is the per-worker run context of one check.
@@ -143,7 +149,7 @@ func (c *Ctx) Violate(sig, what string, cs interface{}) {
 	if len(what) > 600 {
 		what = what[:600] + "…"
 	}
-	c.Violations[sig] = &Violation{Property: c.Property, Signature: sig, What: what, Case: raw, Count: 1}
+	c.Violations[sig] = &Violation{Property: c.Property, Signature: sig, What: what, Case: raw, Count: 1, Shard: c.Shard, NShards: c.NShards, Tier: c.Tier}
 }
 
 // WorkerResult is what a worker hands to the parent.
